@@ -27,22 +27,24 @@ OperU == {<<"elem", e>> : e \in Elem} \cup {<<"list", s>> : s \in SeqsUpTo(Elem,
 InitUlist == mode = "ulist" /\ a \in RawU /\ b \in OperU /\ pending = {} /\ m = Nil
 
 \* --- "map": a = mapping, b = argument ---------------------------------------------------------
-MKey == {"a", "b", "c"}
+MKey == {"a", "b", "_c"}          \* a key with a leading underscore is a key like any other (d._c mirrors d["_c"])
 MVal == {VInt(1), None}
 Injective(s) == \A i, j \in 1..Len(s) : i # j => s[i] # s[j]
 MapsOver(K, V) == UNION {{[i \in 1..Len(ks) |-> <<ks[i], vs[i]>>] : vs \in [1..Len(ks) -> V]} : ks \in {s \in SeqsUpTo(K, Cardinality(K)) : Injective(s)}}
 MapU   == MapsOver(MKey, MVal)
-SelU   == {<<"elem", k>> : k \in {"a", "b", "z"}} \cup {<<"list", s>> : s \in SeqsUpTo({"a", "b", "c", "z"}, 2)}
-OtherU == MapsOver({"b", "c", "z"}, {VInt(2), None})
-RenU   == UNION {[S -> {"a", "b", "c", "n"}] : S \in SUBSET {"a", "b", "z"}}
-ArgU   == {<<"sel", x>> : x \in SelU} \cup {<<"keys", s>> : s \in SeqsUpTo({"a", "b", "c", "z"}, 2)}
+SelU   == {<<"elem", k>> : k \in {"a", "_c", "z"}} \cup {<<"list", s>> : s \in SeqsUpTo({"a", "b", "_c", "z"}, 2)}
+OtherU == MapsOver({"b", "_c", "z"}, {VInt(2), None})
+RenU   == UNION {[S -> {"a", "b", "_c", "n"}] : S \in SUBSET {"a", "_c", "z"}}
+ArgU   == {<<"sel", x>> : x \in SelU} \cup {<<"keys", s>> : s \in SeqsUpTo({"a", "b", "_c", "z"}, 2)}
           \cup {<<"other", o>> : o \in OtherU} \cup {<<"ren", r>> : r \in RenU}
 InitMap == mode = "map" /\ a \in MapU /\ b \in ArgU /\ pending = {} /\ m = Nil
 
 \* --- "call": a = par (derived key -> parameter names), pending, m -----------------------------
-Base   == [p |-> VInt(1), q |-> VStr("s")]
+\* a base key is called "key": Dict.__call__ hands every definition a hidden default key = <its name>, which an entry
+\* of the mapping with that name must trump (arguments are taken by name from the mapping)
+Base   == [p |-> VInt(1), key |-> VStr("s")]
 KeyOrd == <<"p", "w", "x", "y", "z">>
-Extra  == [p |-> <<"q">>, w |-> <<"p">>, x |-> <<>>, y |-> <<"p", "q">>, z |-> <<>>]     \* parameters read from the mapping
+Extra  == [p |-> <<"key">>, w |-> <<"p">>, x |-> <<>>, y |-> <<"p", "key">>, z |-> <<>>]     \* parameters read from the mapping
 OrdSeq(S) == SelectSeq(KeyOrd, LAMBDA k : k \in S)
 \* derived keys: any subset of w..z, or (shadowing) subsets of {p, x, y} that redefine the base key p
 DSets  == (SUBSET {"w", "x", "y", "z"}) \cup {S \in SUBSET {"p", "x", "y"} : "p" \in S}
